@@ -7,18 +7,25 @@ From DC Require Import DCPrelude DCPreludeFacts ArgsKeyBase DjangoBase Gen_Djang
 (* ------------------------------------------------------------------------------------------------ *)
 (* 1. bridge lemmas                                                                                  *)
 
+(* What the refinement needs of the generated get_backend_timeout, and no more: DEFAULT -> the backend
+   default; None -> never; a positive number is kept; zero or a negative number becomes SOME relative expiry
+   <= 0 (an item whose expire_time <= now is invisible to every lookup, which is all the contract says; the
+   source maps 0 to -1 s, ticket 21147, but 0 itself would do). *)
 Lemma bridge_gbt dflt t :
-  get_backend_timeout dflt t =
   match t with
-  | DjDefault => dflt
-  | DjNone => None
-  | DjNum d => if d =? 0 then Some (-1024) else Some d
+  | DjDefault => get_backend_timeout dflt t = dflt
+  | DjNone => get_backend_timeout dflt t = None
+  | DjNum d => exists d', get_backend_timeout dflt t = Some d' /\ (d > 0 -> d' = d) /\ (d <= 0 -> d' <= 0)
   end.
 Proof.
-  unfold get_backend_timeout, gbt_assign, dj_of_default. destruct t as [| |d].
-  - destruct dflt; reflexivity.
+  destruct t as [| |d].
+  - unfold get_backend_timeout, gbt_assign, dj_of_default. destruct dflt; reflexivity.
   - reflexivity.
-  - change (sec 0) with 0. destruct (d =? 0); reflexivity.
+  - destruct (Z.eq_dec d 0) as [->|N].
+    + eexists. split; [reflexivity | unfold sec; split; intros; lia].
+    + assert (E : (d =? 0) = false) by lia.
+      unfold get_backend_timeout, gbt_assign. try change (sec 0) with 0. rewrite ?E.
+      eexists. split; [reflexivity | split; intros; lia].
 Qed.
 
 Lemma bridge_gbt_no_escape dflt t : gbt_sentinel_escapes dflt t = false.
@@ -36,16 +43,18 @@ Definition expiry (dflt : option Z) (now : Z) (t : dj_timeout) : option Z :=
 Theorem timeout_map dflt now :
   expiry dflt now DjDefault = abs_exp now dflt                               (* the backend default *)
   /\ expiry dflt now DjNone = None                                             (* never *)
-  /\ (exists e, expiry dflt now (DjNum 0) = Some e /\ e < now)                 (* already expired *)
-  /\ (forall t, t < 0 -> exists e, expiry dflt now (DjNum t) = Some e /\ e < now)
+  /\ (exists e, expiry dflt now (DjNum 0) = Some e /\ e <= now)                (* already expired *)
+  /\ (forall t, t < 0 -> exists e, expiry dflt now (DjNum t) = Some e /\ e <= now)
   /\ (forall t, t > 0 -> expiry dflt now (DjNum t) = Some (now + t)).
 Proof.
   unfold expiry. split; [|split; [|split; [|split]]].
-  - rewrite bridge_gbt. reflexivity.
-  - rewrite bridge_gbt. reflexivity.
-  - rewrite bridge_gbt. exists (now + -1024). cbn. split; [reflexivity | lia].
-  - intros t L. rewrite bridge_gbt. exists (now + t). destruct (t =? 0) eqn:E; [lia|]. cbn. split; [reflexivity | lia].
-  - intros t L. rewrite bridge_gbt. destruct (t =? 0) eqn:E; [lia|]. reflexivity.
+  - rewrite (bridge_gbt dflt DjDefault). reflexivity.
+  - rewrite (bridge_gbt dflt DjNone). reflexivity.
+  - destruct (bridge_gbt dflt (DjNum 0)) as [d' [E [_ L]]]. rewrite E. exists (now + d'). cbn.
+    split; [reflexivity | lia].
+  - intros t Lt. destruct (bridge_gbt dflt (DjNum t)) as [d' [E [_ L]]]. rewrite E. exists (now + d'). cbn.
+    split; [reflexivity | lia].
+  - intros t Lt. destruct (bridge_gbt dflt (DjNum t)) as [d' [E [P _]]]. rewrite E, (P Lt). reflexivity.
 Qed.
 
 (* The table entries, as far as this property depends on them.  The default of `retry` (d_retry) is left
@@ -321,24 +330,21 @@ Lemma store_local dflt now vk key x t sp bk :
   slive now vk (store vk x (spec_ttl dflt now t) sp)
   = blive now key (bupd key (x, abs_exp now (get_backend_timeout dflt t)) bk).
 Proof.
-  rewrite blive_upd_same, bridge_gbt.
-  assert (A : forall d, slive now vk (store vk x (after now d) sp)
-                        = (if alive now (x, abs_exp now (if d =? 0 then Some (-1024) else Some d))
-                           then Some (x, abs_exp now (if d =? 0 then Some (-1024) else Some d)) else None)).
-  { intros d. unfold after. destruct (d <=? 0) eqn:L; cbn [store].
-    - rewrite slive_del_same. destruct (d =? 0) eqn:Z0; unfold alive; cbn.
-      + destruct (now <? now + -1024) eqn:B; [lia | reflexivity].
-      + destruct (now <? now + d) eqn:B; [lia | reflexivity].
-    - rewrite slive_upd_same. destruct (d =? 0) eqn:Z0; [lia|]. reflexivity. }
+  rewrite blive_upd_same.
+  (* a relative expiry d' that is d when d > 0 and <= 0 otherwise *)
+  assert (A : forall d d', (d > 0 -> d' = d) -> (d <= 0 -> d' <= 0) ->
+                           slive now vk (store vk x (after now d) sp)
+                           = (if alive now (x, Some (now + d')) then Some (x, Some (now + d')) else None)).
+  { intros d d' P N. unfold after. destruct (d <=? 0) eqn:L; cbn [store].
+    - rewrite slive_del_same. unfold alive; cbn [snd]. assert (d' <= 0) by (apply N; lia).
+      destruct (now <? now + d') eqn:B; [lia | reflexivity].
+    - rewrite slive_upd_same. rewrite (P ltac:(lia)). reflexivity. }
   destruct t as [| |d]; cbn [spec_ttl].
-  - destruct dflt as [d|]; cbn [store abs_exp].
-    + rewrite A. destruct (d =? 0) eqn:Z0; [|reflexivity].
-      (* default timeout 0: Django maps only an explicit 0 to -1; both are dead now *)
-      assert (d = 0) by lia. subst d. unfold alive; cbn.
-      destruct (now <? now + -1024) eqn:B; [lia|]. destruct (now <? now + 0) eqn:B'; [lia | reflexivity].
+  - rewrite (bridge_gbt dflt DjDefault). destruct dflt as [d|]; cbn [store abs_exp].
+    + apply A; intros; lia.
     + rewrite slive_upd_same. reflexivity.
-  - cbn [store abs_exp]. rewrite slive_upd_same. reflexivity.
-  - apply A.
+  - rewrite (bridge_gbt dflt DjNone). cbn [store abs_exp]. rewrite slive_upd_same. reflexivity.
+  - destruct (bridge_gbt dflt (DjNum d)) as [d' [E [P N]]]. rewrite E. cbn [abs_exp]. apply A; assumption.
 Qed.
 
 Lemma R_store c now sp bk v k x t :
@@ -376,18 +382,17 @@ Proof.
   rewrite slive_upd_same, blive_upd_same. reflexivity.
 Qed.
 
-(* away from the expiry instant Cache.incr sees exactly what a lookup sees *)
+(* Cache.incr sees exactly what a lookup sees (`expire_time <= now` is the negation of `expire_time > now`) *)
 Lemma incr_result_live bk key delta now :
-  match bfind key bk with Some (_, Some t) => t =? now | _ => false end = false ->
   incr_result bk key delta now =
   match blive now key bk with
   | Some e => (bupd key (fst e + delta, snd e) bk, RVal (fst e + delta))
   | None => (bk, RRaise ValueError)
   end.
 Proof.
-  unfold incr_result, blive, live, bfind. destruct (find zlist_eqb key bk) as [[x [t|]]|]; intros N.
+  unfold incr_result, blive, live, bfind. destruct (find zlist_eqb key bk) as [[x [t|]]|].
   - unfold incr_dead, alive. cbn [snd fst].
-    destruct (t <? now) eqn:A; destruct (now <? t) eqn:B; try reflexivity; lia.
+    destruct (t <=? now) eqn:A; destruct (now <? t) eqn:B; try reflexivity; lia.
   - reflexivity.
   - reflexivity.
 Qed.
@@ -452,11 +457,11 @@ Section Step.
 
   (* one call *)
   Theorem step_refines sp bk o :
-    R c now sp bk -> at_expiry_instant c bk o now = false ->
+    R c now sp bk ->
     snd (dj_step c bk o now) = snd (dj_spec c sp o now) /\
     R c now (fst (dj_spec c sp o now)) (fst (dj_step c bk o now)).
   Proof.
-    intros H NE. destruct o as [k x t ver|k ver|k x t ver|k t ver|k ver|k delta ver|k delta ver|k ver|ks ver
+    intros H. destruct o as [k x t ver|k ver|k x t ver|k t ver|k ver|k delta ver|k delta ver|k ver|ks ver
                                |kvs t ver|ks ver|k d t ver|k delta ver|k delta ver|k ver|];
       cbn [dj_step dj_spec].
     - (* add *)
@@ -479,14 +484,12 @@ Section Step.
       unfold bk_delete. rewrite <- (H (ver_of c ver) k).
       destruct (slive now (ver_of c ver, k) sp); reflexivity.
     - (* incr *)
-      rewrite dj_incr_eq. cbn [at_expiry_instant] in NE. fold (mk c (ver_of c ver) k) in NE.
-      rewrite (incr_result_live _ _ _ _ NE). rewrite <- (H (ver_of c ver) k).
+      rewrite dj_incr_eq. rewrite incr_result_live. rewrite <- (H (ver_of c ver) k).
       destruct (slive now (ver_of c ver, k) sp) as [e|]; cbn [fst snd].
       + split; [reflexivity | apply R_upd_both; exact H].
       + split; [reflexivity | exact H].
     - (* decr *)
-      rewrite dj_decr_eq. cbn [at_expiry_instant] in NE. fold (mk c (ver_of c ver) k) in NE.
-      rewrite (incr_result_live _ _ _ _ NE). rewrite <- (H (ver_of c ver) k).
+      rewrite dj_decr_eq. rewrite incr_result_live. rewrite <- (H (ver_of c ver) k).
       destruct (slive now (ver_of c ver, k) sp) as [e|]; cbn [fst snd].
       + rewrite Z.add_opp_r. split; [reflexivity | apply R_upd_both; exact H].
       + split; [reflexivity | exact H].
@@ -521,93 +524,68 @@ Section Step.
   Qed.
 End Step.
 
-(* every history whose clock does not run backwards and that never calls incr/decr exactly at the expiry
-   instant of its key: the backend answers every call as the contract does, and the final states are
-   related *)
+(* every history whose clock does not run backwards: the backend answers every call as the contract does,
+   and the final states are related *)
 Definition end_time (t0 : Z) (h : list (op * Z)) : Z := fold_left (fun _ p => snd p) h t0.
 
 Theorem run_refines c : forall h t0 sp bk,
-  R c t0 sp bk -> clock_ok t0 h = true -> hits_expiry_instant c bk h = false ->
+  R c t0 sp bk -> clock_ok t0 h = true ->
   snd (run (dj_step c) bk h) = snd (run (dj_spec c) sp h) /\
   R c (end_time t0 h) (fst (run (dj_spec c) sp h)) (fst (run (dj_step c) bk h)).
 Proof.
-  induction h as [|[o now] h IH]; intros t0 sp bk H CK NE; cbn [run].
+  induction h as [|[o now] h IH]; intros t0 sp bk H CK; cbn [run].
   - split; [reflexivity | exact H].
-  - cbn [clock_ok hits_expiry_instant] in CK, NE.
-    apply andb_true_iff in CK. destruct CK as [L CK]. apply orb_false_iff in NE. destruct NE as [NE1 NE2].
+  - cbn [clock_ok] in CK. apply andb_true_iff in CK. destruct CK as [L CK].
     assert (H' : R c now sp bk) by (apply (R_mono c t0); [exact H | lia]).
-    destruct (step_refines c now sp bk o H' NE1) as [E HR].
+    destruct (step_refines c now sp bk o H') as [E HR].
     destruct (dj_step c bk o now) as [bk1 r1]. destruct (dj_spec c sp o now) as [sp1 r1'].
     cbn [fst snd] in *. subst r1'.
-    specialize (IH now sp1 bk1 HR CK NE2). unfold end_time in *. cbn [fold_left snd].
+    specialize (IH now sp1 bk1 HR CK). unfold end_time in *. cbn [fold_left snd].
     destruct (run (dj_step c) bk1 h) as [bk2 rs]. destruct (run (dj_spec c) sp1 h) as [sp2 rs'].
     cbn [fst snd] in *. destruct IH as [IH1 IH2]. subst rs'. split; [reflexivity | exact IH2].
 Qed.
 
-Theorem refines_partial c t0 h :
-  clock_ok t0 h = true -> hits_expiry_instant c [] h = false ->
-  snd (run (dj_step c) [] h) = snd (run (dj_spec c) [] h).
-Proof. intros CK NE. exact (proj1 (run_refines c h t0 [] [] (R_empty c t0) CK NE)). Qed.
+Theorem refines c t0 h :
+  clock_ok t0 h = true -> snd (run (dj_step c) [] h) = snd (run (dj_spec c) [] h).
+Proof. intros CK. exact (proj1 (run_refines c h t0 [] [] (R_empty c t0) CK)). Qed.
 
 (* witnesses *)
 Definition wit_cfg : cfg := {| c_prefix := []; c_version := 1; c_default := Some (sec 300) |}.
 Definition wit_key : str := [107].
-(* set('k', 5, timeout=5) at t = 0; incr('k') at t = 5 s exactly *)
-Definition wit_hist : list (op * Z) :=
-  [(OSet wit_key 5 (DjNum (sec 5)) None, 0); (OGet wit_key None, sec 5); (OIncr wit_key 1 None, sec 5)].
 
-(* The full statement (no exclusion) is FALSE of the faithful model: finding C19-F1 / D6. *)
-Theorem refines_refuted :
-  exists c h, clock_ok 0 h = true /\ snd (run (dj_step c) [] h) <> snd (run (dj_spec c) [] h).
-Proof. exists wit_cfg, wit_hist. split; [reflexivity | vm_compute; discriminate]. Qed.
-
-(* what the model answers on the witness: get sees nothing, incr returns 6 where the contract raises *)
-Example refines_refuted_observed :
-  snd (run (dj_step wit_cfg) [] wit_hist) = [RUnit; RNone; RVal 6] /\
-  snd (run (dj_spec wit_cfg) [] wit_hist) = [RUnit; RNone; RRaise ValueError].
+(* Regression witness of the former finding C19-F1 (D6, fixed): set('k', 5, timeout=5) at t = 0; at t = 5 s
+   exactly get sees nothing and incr raises ValueError, one tick earlier it still increments. *)
+Example refines_at_expiry_instant :
+  let h := [(OSet wit_key 5 (DjNum (sec 5)) None, 0); (OIncr wit_key 1 None, sec 5 - 1);
+            (OGet wit_key None, sec 5); (OIncr wit_key 1 None, sec 5); (OIncr wit_key 1 None, sec 5 + 1);
+            (OIncrVersion wit_key 1 None, sec 6)] in
+  clock_ok 0 h = true /\
+  snd (run (dj_step wit_cfg) [] h) = [RUnit; RVal 6; RNone; RRaise ValueError; RRaise ValueError; RRaise ValueError].
 Proof. split; vm_compute; reflexivity. Qed.
 
-(* the hypotheses of refines_partial are satisfiable by a history that does use incr on an expiring key,
-   one tick before and one tick after its expiry *)
-Example refines_partial_nonvacuous :
-  let h := [(OSet wit_key 5 (DjNum (sec 5)) None, 0); (OIncr wit_key 1 None, sec 5 - 1);
-            (OIncr wit_key 1 None, sec 5 + 1); (OIncrVersion wit_key 1 None, sec 6)] in
-  clock_ok 0 h = true /\ hits_expiry_instant wit_cfg [] h = false /\
-  snd (run (dj_step wit_cfg) [] h) = [RUnit; RVal 6; RRaise ValueError; RRaise ValueError].
-Proof. repeat split; vm_compute; reflexivity. Qed.
-
-(* the exclusion is tight: whenever incr is called at the expiry instant of a stored key the backend
-   answers with a value although the contract (no live key) raises ValueError *)
-Theorem at_expiry_instant_differs c now sp bk k delta ver :
-  R c now sp bk -> at_expiry_instant c bk (OIncr k delta ver) now = true ->
-  (exists x, snd (dj_step c bk (OIncr k delta ver) now) = RVal x) /\
-  snd (dj_spec c sp (OIncr k delta ver) now) = RRaise ValueError.
+(* The clock hypothesis is needed: an item stored with timeout 0 is a row with expire_time = now - 1 s in the
+   backend and nothing in the contract; a clock that jumps back by more than a second revives the row. *)
+Theorem refines_needs_clock :
+  exists c h, clock_ok 0 h = false /\ snd (run (dj_step c) [] h) <> snd (run (dj_spec c) [] h).
 Proof.
-  intros H A. cbn [at_expiry_instant] in A. fold (mk c (ver_of c ver) k) in A.
-  cbn [dj_step dj_spec]. rewrite dj_incr_eq. unfold incr_result.
-  pose proof (H (ver_of c ver) k) as E. unfold blive, live in E. fold bfind in E.
-  destruct (bfind (mk c (ver_of c ver) k) bk) as [[x [t|]]|]; try discriminate A.
-  apply Z.eqb_eq in A. subst t. unfold incr_dead, alive in *. cbn [snd fst] in *.
-  rewrite Z.ltb_irrefl in *. split; [eexists; reflexivity|]. rewrite E. reflexivity.
+  exists wit_cfg, [(OSet wit_key 5 (DjNum 0) None, sec 10); (OGet wit_key None, 0)].
+  split; [reflexivity | vm_compute; discriminate].
 Qed.
 
 (* incr/decr on a key that no lookup can see (missing or expired) raise ValueError *)
 Lemma incr_missing_raises c now sp bk k delta ver :
-  R c now sp bk -> at_expiry_instant c bk (OIncr k delta ver) now = false ->
-  slive now (ver_of c ver, k) sp = None ->
+  R c now sp bk -> slive now (ver_of c ver, k) sp = None ->
   snd (dj_step c bk (OIncr k delta ver) now) = RRaise ValueError /\
   snd (dj_step c bk (ODecr k delta ver) now) = RRaise ValueError.
 Proof.
-  intros H NE L. split.
-  - rewrite (proj1 (step_refines c now sp bk _ H NE)). cbn [dj_spec]. rewrite L. reflexivity.
-  - assert (NE' : at_expiry_instant c bk (ODecr k delta ver) now = false) by exact NE.
-    rewrite (proj1 (step_refines c now sp bk _ H NE')). cbn [dj_spec]. rewrite L. reflexivity.
+  intros H L. split.
+  - rewrite (proj1 (step_refines c now sp bk _ H)). cbn [dj_spec]. rewrite L. reflexivity.
+  - rewrite (proj1 (step_refines c now sp bk _ H)). cbn [dj_spec]. rewrite L. reflexivity.
 Qed.
 
 Example incr_missing_raises_nonvacuous :
-  R wit_cfg 7 [] [] /\ at_expiry_instant wit_cfg [] (OIncr wit_key 1 None) 7 = false /\
-  slive 7 (ver_of wit_cfg None, wit_key) [] = None.
-Proof. split; [apply R_empty | split; reflexivity]. Qed.
+  R wit_cfg 7 [] [] /\ slive 7 (ver_of wit_cfg None, wit_key) [] = None.
+Proof. split; [apply R_empty | reflexivity]. Qed.
 
 (* the relation is not vacuous: the states reached by a history (one entry with a deadline, one without,
    one stored already expired, which the contract forgets and the backend keeps as a dead row) *)
@@ -617,15 +595,16 @@ Example R_nonvacuous :
   length (fst (run (dj_step wit_cfg) [] h)) = 3%nat /\ length (fst (run (dj_spec wit_cfg) [] h)) = 2%nat.
 Proof.
   intros h. split; [|split; vm_compute; reflexivity].
-  refine (proj2 (run_refines wit_cfg h 0 [] [] (R_empty wit_cfg 0) _ _)); vm_compute; reflexivity.
+  refine (proj2 (run_refines wit_cfg h 0 [] [] (R_empty wit_cfg 0) _)); vm_compute; reflexivity.
 Qed.
 
 (* Culling (Cache._cull, run inside set/add/incr) deletes rows with expire_time < now.  The model has no
-   culling step; this is why that is sound: deleting such a row, under whatever key, keeps the relation,
-   so no later call of a history whose clock does not run backwards can tell the difference. *)
+   culling step; this is why that is sound: deleting a row that no lookup can see (expire_time <= now),
+   under whatever key, keeps the relation, so no later call of a history whose clock does not run
+   backwards can tell the difference. *)
 Definition cull_key (now : Z) (key : str) (bk : bstate) : bstate :=
   match bfind key bk with
-  | Some e => if incr_dead now e then bdel key bk else bk
+  | Some e => if alive now e then bk else bdel key bk
   | None => bk
   end.
 
@@ -633,11 +612,10 @@ Lemma cull_unobservable c now sp bk key : R c now sp bk -> R c now sp (cull_key 
 Proof.
   intros H v k. rewrite (H v k). unfold cull_key.
   destruct (bfind key bk) as [e|] eqn:F; [|reflexivity].
-  destruct (incr_dead now e) eqn:D; [|reflexivity].
+  destruct (alive now e) eqn:D; [reflexivity|].
   destruct (zlist_eqb (mk c v k) key) eqn:Q.
-  - apply zlist_eqb_spec in Q. rewrite Q. rewrite blive_del_same. unfold blive, live. fold bfind. rewrite F.
-    unfold incr_dead in D. unfold alive. destruct (snd e) as [t|]; [|discriminate D].
-    destruct (now <? t) eqn:A; [lia | reflexivity].
+  - apply zlist_eqb_spec in Q. rewrite Q. rewrite blive_del_same. unfold blive, live. fold bfind. rewrite F, D.
+    reflexivity.
   - assert (N : mk c v k <> key) by (intros X; apply zlist_eqb_spec in X; congruence).
     unfold blive, live. fold bfind. rewrite (bfind_del_other _ _ _ N). reflexivity.
 Qed.
